@@ -58,6 +58,19 @@ CHECKS = {
          "rejected by the verifier (recorded under C05)",
          "runtime differential monitoring (packet bytes vs struct) + store-"
          "event monitor in the reference VM", "4 C07"),
+ "C06": ("exploration",
+         "The single in-place add statement is compiled by the real "
+         "generator for every 4/8-byte format x memory kind x amount kind; "
+         "two instances are run over ALL interleavings of the statement's "
+         "instructions (three over all or a seeded sample) in the reference "
+         "machine and the conservation law final = initial + sum(amounts) is "
+         "checked on every schedule; a kernel leg runs the loaded program "
+         "from 8 threads x 100000 repeats on the shared cell.",
+         "instruction-granular interleaving model (each eBPF instruction "
+         "atomic); exhaustive for 2 instances, bounded for 3; kernel leg "
+         "adds real but uncontrolled interleavings",
+         "schedule enumeration in a single-step reference VM + kernel "
+         "stress, conservation oracle", "4 C06"),
 }
 
 NOT_YET = "check not built yet in this round (design in DESIGN.md section 4)"
